@@ -704,4 +704,13 @@ func genC07(g *gen, c *sim.Case, tier string) {
 		}
 		c.Tasks = append(c.Tasks, task)
 	}
+	if c.Knobs["backend"] == 1 && r.Chance(1, 4) {
+		// the server is reachable but answers with error replies for a while (once or twice)
+		task := sim.Task{Name: "zf"}
+		for i := 0; i < 1+r.Intn(2); i++ {
+			task.Ops = append(task.Ops, sim.Op{K: "jump", D: int64(sim.Pick(r, 100*time.Microsecond, 20*time.Millisecond, 150*time.Millisecond, 400*time.Millisecond))})
+			task.Ops = append(task.Ops, sim.Op{K: "srverr", D: int64(sim.Pick(r, time.Millisecond, 120*time.Millisecond, 600*time.Millisecond))})
+		}
+		c.Tasks = append(c.Tasks, task)
+	}
 }
